@@ -237,7 +237,21 @@ def do_call(client, callid, a, b):
         elif a[4] == 1:
             fs = a[5]
         else:
-            fs = Filesize(uncompressed=oi(a, 6), compressed=oi(a, 8), width=oi(a, 10))
+            u, c, w = oi(a, 6), oi(a, 8), oi(a, 10)
+            fs = None
+            if getattr(client, '_verif_reuse_objects', False) and w is not None and u is not None:
+                # the application keeps ONE Filesize object per (compressed size given?, width) and updates the sizes it knows
+                # (public attributes) before the next transfer: the request must be the one a fresh object would give
+                cache = client.__dict__.setdefault('_verif_filesizes', {})
+                fs = cache.get((c is None, w))
+                if fs is not None:
+                    fs.uncompressed = u
+                    if c is not None:
+                        fs.compressed = c
+            if fs is None:
+                fs = Filesize(uncompressed=u, compressed=c, width=w)
+                if getattr(client, '_verif_reuse_objects', False) and w is not None and u is not None:
+                    client.__dict__.setdefault('_verif_filesizes', {})[(c is None, w)] = fs
         if W and a[0] in wrappers.FILE:
             wname, wnames = wrappers.FILE[a[0]]
             if all(v is None for n, v in (('dfi', dfi), ('fs', fs)) if n not in wnames):
